@@ -169,6 +169,12 @@ func content(cc string, r *rand.Rand) []byte {
 		return b
 	case "bom":
 		return append(append([]byte{}, bom...), textLines(r, "\n")...)
+	case "bombinary": // not valid UTF-8, but the first three bytes are EF BB BF
+		n := 2 + r.Intn(200)
+		b := make([]byte, n)
+		r.Read(b)
+		b[0] = []byte{0xFF, 0xFE, 0xC0, 0x80, 0xF8}[r.Intn(5)] // never legal as the start of a UTF-8 sequence
+		return append(append([]byte{}, bom...), b...)
 	case "crlf":
 		return textLines(r, "\r\n")
 	}
@@ -258,6 +264,11 @@ func (g *gen15) focusName(pc string) string {
 		return u
 	case "dotfile":
 		return "." + rn
+	case "template":
+		return "templates/" + []string{rn + ".yaml", rn + ".tpl", "sub/" + rn + ".yaml", rn + ".txt", rn}[g.r.Intn(5)]
+	case "dotdotname": // consecutive dots that are not a path element: a valid file name
+		return []string{"templates/v1..v2-" + rn + ".yaml", "docs/changes-1.0..2.0-" + rn + ".md", rn + "..bak", "files/a..b/" + rn,
+			"templates/" + rn + "...yaml", "docs/..." + rn}[g.r.Intn(6)]
 	case "dotunder": // "._name" at the top: an ordinary chart file
 		return "._" + rn
 	case "dotundernested":
@@ -287,17 +298,30 @@ func valuesYAML(vc string, r *rand.Rand) []byte {
 	panic(harnessError{fmt.Errorf("values class %s", vc)})
 }
 
-func lockYAMLFor(deps []string, r *rand.Rand) []byte {
+func lockYAMLFor(deps []string, shape string, r *rand.Rand) []byte {
 	var b strings.Builder
-	b.WriteString("dependencies:\n")
-	for _, d := range deps {
-		fmt.Fprintf(&b, "- name: %s\n  repository: https://example.com/charts\n  version: 0.1.0\n", d)
+	if shape == "emptydeps" {
+		deps = nil
 	}
 	if len(deps) == 0 {
-		b.Reset()
-		b.WriteString("dependencies: []\n")
+		b.WriteString([]string{"dependencies: []\n", ""}[r.Intn(2)])
+	} else {
+		b.WriteString("dependencies:\n")
+		for _, d := range deps {
+			fmt.Fprintf(&b, "- name: %s\n  repository: https://example.com/charts\n  version: 0.1.0\n", d)
+		}
 	}
-	fmt.Fprintf(&b, "digest: sha256:%064x\ngenerated: \"2021-0%d-1%dT0%d:00:00.%09dZ\"\n", r.Int63(), 1+r.Intn(9), r.Intn(9), r.Intn(9), r.Intn(999999999))
+	if shape != "nodigest" {
+		fmt.Fprintf(&b, "digest: sha256:%064x\n", r.Int63())
+	} else if r.Intn(2) == 0 {
+		b.WriteString("digest: \"\"\n")
+	}
+	if shape != "nogenerated" {
+		fmt.Fprintf(&b, "generated: \"2021-0%d-1%dT0%d:00:00.%09dZ\"\n", 1+r.Intn(9), r.Intn(9), r.Intn(9), r.Intn(999999999))
+	}
+	if b.Len() == 0 {
+		b.WriteString("{}\n")
+	}
 	return []byte(b.String())
 }
 
@@ -370,12 +394,12 @@ func (g *gen15) chartFiles(name, depPath string, level int, shape string) []*loa
 		if c.Schema {
 			add("values.schema.json", []byte(fmt.Sprintf("{\n  \"$schema\": \"http://json-schema.org/draft-07/schema#\",\n  \"title\": %q,\n  \"type\": \"object\"\n}\n", trickyString(g.r))))
 		}
-		if c.Lock == "native" {
+		if c.Lock != "none" {
 			ln := "Chart.lock"
 			if api == "v1" {
 				ln = "requirements.lock"
 			}
-			add(ln, lockYAMLFor(depNames, g.r))
+			add(ln, lockYAMLFor(depNames, c.Lock, g.r))
 		}
 	} else {
 		add("values.yaml", valuesYAML("text", g.r))
@@ -542,7 +566,7 @@ func (g *gen15) diffCharts(a, b *chart.Chart, depPath string, out *[]DiffItem) {
 	case a.Lock == nil && b.Lock != nil:
 		*out = append(*out, DiffItem{Field: "lock", Chart: depPath, Kind: "extra", Class: "base"})
 	default:
-		if a.Lock.Digest != b.Lock.Digest || !a.Lock.Generated.Equal(b.Lock.Generated) || jsonOf(a.Lock.Dependencies) != jsonOf(b.Lock.Dependencies) {
+		if a.Lock.Digest != b.Lock.Digest || !a.Lock.Generated.Equal(b.Lock.Generated) || (len(a.Lock.Dependencies)+len(b.Lock.Dependencies) > 0 && jsonOf(a.Lock.Dependencies) != jsonOf(b.Lock.Dependencies)) {
 			*out = append(*out, DiffItem{Field: "lock", Chart: depPath, Kind: "value", Class: "base"})
 		}
 	}
